@@ -221,6 +221,7 @@ func emit(w *hx.Writer, o *hx.Opts, id, kind string, c *msgx.Case) {
 
 func main() {
 	o := hx.ParseFlags()
+	msgx.Quiesce() // the idle process, before anything is started
 	w := hx.NewWriter(o)
 	defer w.Close()
 	for _, cc := range catalogue() {
